@@ -972,4 +972,58 @@ example :
       ((resolveMode cfg 8 8 2 7 9 3 4 none).toOption.map (fun p => (p.1.1.isSome, p.2.1.isSome))) = some (false, true) := by
   decide
 
+/-! ## R5: the same source once more; what `Provider._extract` leaves at every key -/
+
+/-- Reading the same source twice in a row — the same file reached through two of the configuration directories
+(`FORML_HOME` = `~/.forml` = the working directory), `read` called again — shows at every key path exactly what reading it
+once shows, anywhere in the stack (older sources below, newer sources on top): lists do not grow, nothing reappears. -/
+theorem C20_reread_idempotent (base : Cfg) (older newer : List Cfg) (c : Cfg) (p : Path) :
+    obs (stack base (older ++ c :: c :: newer)) p = obs (stack base (older ++ c :: newer)) p := by
+  have h2 : stack base (older ++ c :: c :: newer) = stack (merge (merge (stack base older) c) c) newer := by
+    simp [stack, List.foldl_append]
+  have h1 : stack base (older ++ c :: newer) = stack (merge (stack base older) c) newer := by
+    simp [stack, List.foldl_append]
+  rw [h2, h1, obs_stack, obs_stack (merge (stack base older) c)]
+  congr 1
+  rw [obs_merge, obs_merge, stepLeaf_idem]
+
+/-- The idempotence is one of the right argument only, and of adjacent sources only: a source repeated with another one
+in between is NOT the same as reading it once (the source in between is overridden again). -/
+def C20_reread_apart_full : Prop :=
+  ∀ (base c d : Cfg) (p : Path), obs (stack base [c, d, c]) p = obs (stack base [c, d]) p
+
+theorem C20_reread_apart_counterexample : ¬ C20_reread_apart_full := by
+  intro h
+  have := h (.table []) (.table [(0, .scalar 1)]) (.table [(0, .scalar 2)]) [0]
+  revert this
+  decide
+
+/-- `Provider._extract`, every key of the resolved section (`provider` ≠ `params` as keys): the provider option is
+exactly what the section says under `provider`; the generic options are the entries of the `params` table first
+(`dict.update`: they win over the section's own option of the same name), then the section's own options without
+`provider` and `params`; a `params` that is not a table fails the resolution. -/
+theorem C20_section_extract (kw : Tbl) (kp kq : Nat) (hne : kq ≠ kp) :
+    (lookup kq kw = none →
+      ∃ out, extractKw kw kp kq = .ok (lookup kp kw, out) ∧ ∀ k, lookup k out = restKw kw kp kq k) ∧
+    (∀ ps, lookup kq kw = some (.table ps) →
+      ∃ out, extractKw kw kp kq = .ok (lookup kp kw, out) ∧
+        ∀ k, lookup k out = match lookup k ps with
+          | some v => some v
+          | none => restKw kw kp kq k) ∧
+    (∀ v, lookup kq kw = some v → (∀ ps, v ≠ .table ps) → extractKw kw kp kq = .error .malformed) :=
+  ⟨extractKw_plain kw kp kq hne, fun ps h => extractKw_params kw kp kq ps hne h,
+   fun v h hv => extractKw_malformed kw kp kq v hne h hv⟩
+
+/-- non-vacuity: a list grows by nothing when its source is read again; `params = {x: 9, provider: 8}` over the section
+`{provider: 5, x: 1, y: 2, params: …}` (keys provider=3, params=4, x=6, y=7) -/
+example :
+    obs (stack (.table [(0, .list [1, 2])]) [.table [(0, .list [3, 1])], .table [(0, .list [3, 1])]]) [0]
+        = some (.list [3, 1, 2]) ∧
+      obs (stack (.table [(0, .list [1, 2])]) [.table [(0, .list [3, 1])]]) [0] = some (.list [3, 1, 2]) ∧
+      ((extractKw [(3, .scalar 5), (6, .scalar 1), (7, .scalar 2), (4, .table [(6, .scalar 9), (3, .scalar 8)])] 3 4).toOption.map
+          (fun r => (r.1.map leaf, (lookup 6 r.2).map leaf, (lookup 7 r.2).map leaf, (lookup 3 r.2).map leaf,
+            (lookup 4 r.2).isNone)))
+        = some (some (.scalar 5), some (.scalar 9), some (.scalar 2), some (.scalar 8), true) := by
+  decide
+
 end ForML.Conf
